@@ -23,7 +23,13 @@ import tempfile
 from .. import core, tlc
 
 LEVEL = "model_checking"
-SCEN = ["torn", "private", "bundle", "three", "mixed"]
+SCEN = ["torn", "private", "bundle", "three", "mixed", "attr", "conn"]
+
+
+def final_table(nsess):
+    """the Connection Manager's Forward Open table at the end: [session, connection serial] pairs (sessions by their peer address)"""
+    from .. import vsock
+    return [[s, ser] for s in range(1, nsess + 1) for ser in vsock.open_connections(("10.0.0.%d" % s, 5000 + s))]
 
 
 def exec_schedule(job):
@@ -70,7 +76,8 @@ def exec_schedule(job):
                     want_ctx = bytes(bytearray(q["fb"][12:20]))
                     if rpy and rpy[12:20] != want_ctx:
                         errors.append("session %d got a reply with another context" % s)
-                    cip = list(rpy[40:]) if len(rpy) > 40 and rpy[8:12] == b"\0\0\0\0" else []
+                    at = 46 if q.get("kind") == "unit" else 40      # SendUnitData: connected address and data items with a sequence count
+                    cip = list(rpy[at:]) if len(rpy) > at and rpy[8:12] == b"\0\0\0\0" else []
                     ops[oid - 1]["rpy"] = cip
                 except Exception as exc:
                     errors.append("session %d: %r" % (s, exc))
@@ -83,7 +90,7 @@ def exec_schedule(job):
     if not done:
         errors.append(S.failed or "did not finish")
     final = dev.get_mem()
-    return {"cfg": cfg, "mem0": sc["mem0"], "ops": ops, "ev": evs, "final": final, "errors": errors, "schedule": schedule,
+    return {"cfg": cfg, "mem0": sc["mem0"], "ops": ops, "ev": evs, "final": final, "ftab": final_table(len(sc["ops"])), "errors": errors, "schedule": schedule,
             "which": sc["which"], "points": len(S.trace), "trace": ["%d:%s" % x for x in S.trace][:200], "cold": bool(cold)}
 
 
@@ -130,7 +137,8 @@ def exec_free(job):
                     rpy = bytes(parser.enip_encode(data.response.enip)) if ok else b""
                     if rpy and rpy[12:20] != bytes(bytearray(q["fb"][12:20])):
                         errors.append("session %d got a reply with another context" % s)
-                    ops[oid - 1]["rpy"] = list(rpy[40:]) if len(rpy) > 40 and rpy[8:12] == b"\0\0\0\0" else []
+                    at = 46 if q.get("kind") == "unit" else 40
+                    ops[oid - 1]["rpy"] = list(rpy[at:]) if len(rpy) > at and rpy[8:12] == b"\0\0\0\0" else []
                 except Exception as exc:
                     errors.append("session %d: %r" % (s, exc))
                 evs.append({"e": "resp", "id": oid})
@@ -149,7 +157,7 @@ def exec_free(job):
     finally:
         sys.setswitchinterval(old)
     overlap = any(evs[k]["e"] == "inv" and evs[k - 1]["e"] == "inv" for k in range(1, len(evs)))
-    return {"cfg": cfg, "mem0": sc["mem0"], "ops": ops, "ev": list(evs), "final": dev.get_mem(), "errors": errors, "schedule": ["free", rep],
+    return {"cfg": cfg, "mem0": sc["mem0"], "ops": ops, "ev": list(evs), "final": dev.get_mem(), "ftab": final_table(len(sc["ops"])), "errors": errors, "schedule": ["free", rep],
             "which": sc["which"], "points": 0, "trace": [], "overlap": overlap}
 
 
@@ -161,7 +169,7 @@ def validate(ctx, lines, name):
         fd, path = tempfile.mkstemp(prefix="conc_", suffix=".ndjson")
         with os.fdopen(fd, "w") as f:
             for ln in ch:
-                f.write(json.dumps({x: ln[x] for x in ("cfg", "mem0", "ops", "ev", "final")}, separators=(",", ":")) + "\n")
+                f.write(json.dumps({x: ln[x] for x in ("cfg", "mem0", "ops", "ev", "final", "ftab")}, separators=(",", ":")) + "\n")
         try:
             res = tlc.run("ConcurrencyTrace", "ConcurrencyTrace.cfg", env={"TRACE_FILE": path}, timeout=2400, workers=1)
         finally:
@@ -189,7 +197,7 @@ def main(ctx):
     for w in SCEN:
         cfgp = os.path.join(wd, "conc_%s.cfg" % w)
         tlc.write_cfg(cfgp, ["SPECIFICATION CSpec", "CHECK_DEADLOCK FALSE", "INVARIANT TagsWellFormed", "INVARIANT PrivateKept",
-                             "INVARIANT NoTornRead", "PROPERTY Terminates", "CONSTANTS", ' Which = "%s"' % w, " CC <- KCfg",
+                             "INVARIANT NoTornRead", "PROPERTY Terminates", "PROPERTY OwnConnections", "CONSTANTS", ' Which = "%s"' % w, " CC <- KCfg",
                              " Mem0 <- KMem0", " Ops <- KOps"])
         res = tlc.run("MC_Concurrency", cfgp, spec_dir=wd, timeout=1700, workers=8)
         ev.tlc("model:" + w, res)
